@@ -549,7 +549,13 @@ class RunLengthEncoding(Encoding):
     def dense(self):
         return runlength.rle_to_dense(self._data, dtype=self._dtype)
 
+    def _from_start(self, indices):
+        # negative indices count from the end, as they do for an array
+        indices = np.asarray(indices)
+        return np.where(indices < 0, indices + int(self.size), indices)
+
     def gather(self, indices):
+        indices = self._from_start(indices)
         return runlength.rle_gather_1d(self._data, indices, dtype=self._dtype)
 
     def gather_nd(self, indices):
@@ -655,7 +661,7 @@ class BinaryRunLengthEncoding(RunLengthEncoding):
         return runlength.brle_to_dense(self._data)
 
     def gather(self, indices):
-        return runlength.brle_gather_1d(self._data, indices)
+        return runlength.brle_gather_1d(self._data, self._from_start(indices))
 
     def gather_nd(self, indices):
         indices = np.squeeze(indices, axis=-1)
